@@ -5,21 +5,46 @@ import ZvtVerif.Proofs.ClientLemmas
 namespace Zvt.C09
 open Zvt
 
-/-- **A failed attempt abandons its connection** — for every sequence, caller, terminal script and fault:
-an error item (transport error, undecodable or unexpected reply, NACK) or a time-out leaves no live
-connection behind. -/
+/-- **A failed attempt abandons its connection** — for every sequence, terminal script and fault, and every caller
+whose loop polls the stream again after an error item (all of feig.rs, `*_polls_again` below): an error item (transport
+error, undecodable or unexpected reply, NACK) or a time-out leaves no live connection behind. -/
 theorem failed_attempt_drops_connection {σ ρ : Type} (d : SeqDesc) (timeout : Nat) (step : σ → Item → Step σ ρ)
+    (hpoll : PollsAgain step)
     (fuel : Nat) (w : World) (c : ConnSt) (st : SeqSt) (s : σ)
     (h : (runItems d timeout step fuel w c st s).2.2 = true) :
     (runItems d timeout step fuel w c st s).2.1.conn = none :=
-  (runItems_conn d timeout step fuel w c st s).1 h
+  (runItems_conn d timeout step fuel w c st s).1 hpoll h
+
+/-! The hypothesis is about the CALLER and it is necessary: `into_stream_with_retry` clears `src.inner` only when it is
+polled again after having yielded the error (`yield packet; if is_err { break }` … `src.inner = None`). A loop body
+that leaves on the error item drops the stream first and the failed connection stays cached. Every loop of the client
+continues on an error item: -/
+
+theorem liftStep_polls_again (onOk : Nat → Val → Step Unit (CRes Unit)) : PollsAgain (liftStep onOk) :=
+  fun _ => ⟨(), rfl⟩
+theorem sysInfoStep_polls_again (e : EnumDef) : PollsAgain (sysInfoStep e) := fun _ => ⟨(), rfl⟩
+theorem pendingStep_polls_again (e : EnumDef) : PollsAgain (pendingStep e) := fun _ => ⟨(), rfl⟩
+theorem readCardStep_polls_again (e : EnumDef) : PollsAgain (readCardStep e) := fun s => ⟨s, rfl⟩
+theorem beginStep_polls_again (e : EnumDef) : PollsAgain (beginStep e) := fun s => ⟨s, rfl⟩
+theorem commitStep_polls_again (e : EnumDef) : PollsAgain (commitStep e) := fun s => ⟨s, rfl⟩
+
+/-- … and the hypothesis cannot be dropped: a caller that leaves its loop on the error item keeps the failed
+connection (kernel-evaluated run: the terminal answers the command with a NACK; the attempt failed, the connection
+is still cached). -/
+example :
+    let d : SeqDesc := seqDesc "sequences::Initialization" [0x06, 0x93, 0x03, 0x12, 0x34, 0x56]
+    let w : World := { faults := [((0, 0), .nack)], logs := [["open@0"]] }
+    let leave : Unit → Item → Step Unit Bool := fun _ it => match it with | .err => .ret false | .ok _ _ => .cont ()
+    let r := runItems d 60 leave 8 w { id := 0 } .start ()
+    r.2.2 = true ∧ r.2.1.conn.isSome = true := by
+  decide +kernel
 
 /-- **An exchange that completes normally keeps the connection — the very same one.** -/
 theorem good_attempt_keeps_connection {σ ρ : Type} (d : SeqDesc) (timeout : Nat) (step : σ → Item → Step σ ρ)
     (fuel : Nat) (w : World) (c : ConnSt) (st : SeqSt) (s : σ)
     (h : (runItems d timeout step fuel w c st s).2.2 = false) :
     ∃ c', (runItems d timeout step fuel w c st s).2.1.conn = some c' ∧ c'.id = c.id :=
-  (runItems_conn d timeout step fuel w c st s).2 h
+  (runItems_conn d timeout step fuel w c st s).2.1 h
 
 /-- the next call reuses a live connection without reconnecting: no handshake, no time. -/
 theorem live_connection_is_reused (cfg : Cfg) (w : World) (c : ConnSt) (h : w.conn = some c) :
